@@ -5,7 +5,7 @@ IDS=${@:-C01 C02 C03 C04 C05 C06 C07 C08 C09 C10 C11 C12 C13 C14 C15 C16 C17 C18
 D=$(mktemp -d /tmp/vr.XXXXXX)
 trap 'rm -rf "$D"' EXIT
 mkdir -p "$D/src"; cp -r /repo/src/. "$D/src/"
-( cd "$D" && patch -s -p1 < "$PATCH" ) || { echo "patch failed"; exit 2; }
+( cd "$D" && patch -s -F0 -p1 < "$PATCH" ) || { echo "patch failed"; exit 2; }
 for c in $IDS; do
   out=$(VERIF_REPO=$D python3 /verif/vcheck.py $c --tier quick 2>&1); rc=$?
   echo "$c rc=$rc $(echo "$out" | grep -E '^  key :' | head -3 | sed 's/  key : //' | tr '\n' ' ') $(echo "$out" | grep -E '^INCONCLUSIVE' | head -1 | cut -c1-160)"
